@@ -4,6 +4,7 @@ import ModbusModel.Lemmas.Tcp
 import ModbusModel.Lemmas.Fault
 import ModbusModel.Lemmas.ClientFraming
 import ModbusModel.Lemmas.WriteFault
+import ModbusModel.Model.Sync
 /-
   C13 – Transport faults surface as transport errors, never as data.
 -/
@@ -151,5 +152,47 @@ example :
       = .done (.transport .writeZero) := by decide +kernel
 example : pieceEvents [some 3, none, some 4] = [.accept 3, .pending, .accept 4] ∧ accepted [some 3, none, some 4] = 7 := by
   decide
+
+/-! ### Through the blocking client -/
+
+/-- **blocking_data_is_async_data**: the blocking wrapper never manufactures data: whenever a
+    blocking call reports anything other than a transport error – a response, an exception, a
+    mismatch – the asynchronous call underneath finished with exactly that result; an unfinished
+    call (timed out, or never able to finish) is a TimedOut transport error -/
+theorem blocking_data_is_async_data (s : SyncContext) (req : Request) (t : Transport)
+    (deadline : Budget) :
+    (∀ k, (s.call req t deadline).1 ≠ .transport k) →
+      (s.asyncCtx.call req t (if s.timeout then deadline else none)).1 = .done (s.call req t deadline).1 := by
+  intro h
+  cases ho : (s.asyncCtx.call req t (if s.timeout then deadline else none)).1 with
+  | done r => simp [SyncContext.call, ho, withTimeout]
+  | abandoned => exact absurd (by simp [SyncContext.call, ho, withTimeout]) (h .timedOut)
+  | blocked => exact absurd (by simp [SyncContext.call, ho, withTimeout]) (h .timedOut)
+
+/-- **blocking_fault_surfaces**: a transport error of the asynchronous call is the same transport
+    error of the blocking call (so every fault theorem above carries over verbatim) -/
+theorem blocking_fault_surfaces (s : SyncContext) (req : Request) (t : Transport)
+    (deadline : Budget) (k : ErrKind)
+    (h : (s.asyncCtx.call req t (if s.timeout then deadline else none)).1 = .done (.transport k)) :
+    (s.call req t deadline).1 = .transport k := by
+  simp [SyncContext.call, h, withTimeout]
+
+/-- … instantiated: a reply cut by a read error at any offset, in any fragmentation, through a
+    blocking TCP client without timeout, is that error -/
+theorem blocking_fault_mid_reply_tcp (c : Client) (req : Request) (t : Transport)
+    (feeds rest : List ReadEv) (kk : ErrKind) (q frame : Bytes) (hdr : TcpHeader) (pdu : Bytes)
+    (res : ResponseResult) (deadline : Budget)
+    (hk : c.kind = .tcp)
+    (hr : ∃ f, c.framed = some f ∧ f.wbuf = [] ∧ f.read.hasErrored = false ∧ f.read.eof = false)
+    (htw : t.writes = []) (htf : t.flushes = [])
+    (hreads : t.reads = feeds ++ .err kk :: rest) (hfeed : ∀ e ∈ feeds, e.isFeed = true)
+    (hq : q ≠ []) (hcut : dataOf feeds ++ q = tcpFrame hdr pdu)
+    (hl : pdu.length < 65535) (hd : decodeResponsePdu pdu = .ok res)
+    (henc : clientEncode .tcp (stampedHdr c) req = .ok frame) (hfne : frame ≠ []) :
+    (({ asyncCtx := c, timeout := false } : SyncContext).call req t deadline).1 = .transport kk := by
+  apply blocking_fault_surfaces
+  have := fault_mid_reply_tcp c req t feeds rest (.err kk) q frame hdr pdu res hk hr htw htf hreads
+    hfeed hq hcut hl hd henc hfne
+  simpa using this
 
 end Modbus.Props.C13
